@@ -37,6 +37,10 @@ type _LexerStateMachine struct {
 	state     int
 	mode      []uint32
 	modeStack _Stack[[]uint32]
+
+	// consumed is true when at least one rune was consumed since the last
+	// accept, discard or try-again.
+	consumed bool
 }
 
 func (l *_LexerStateMachine) PushRune(r rune) int {
@@ -82,6 +86,7 @@ func (l *_LexerStateMachine) PushRune(r rune) int {
 			switch {
 			case r >= rune(mode[k]) && r <= rune(mode[k+1]):
 				l.state = int(mode[k+2])
+				l.consumed = true
 				return _lexerConsume
 			case r < rune(mode[k]):
 				e = j
@@ -95,6 +100,12 @@ func (l *_LexerStateMachine) PushRune(r rune) int {
 
 	// Move 'i' to the beginning of the actions section.
 	i += gotoN * 3
+
+	// A rule only matches after it consumed input. Otherwise a rule that can
+	// match the empty string would match again and again at the same position.
+	if !l.consumed {
+		end = i
+	}
 
 	for ; i < end; i += 2 {
 		switch mode[i] {
@@ -111,12 +122,15 @@ func (l *_LexerStateMachine) PushRune(r rune) int {
 		case 3: // Accept
 			l.token = int(mode[i+1])
 			l.state = 0
+			l.consumed = false
 			return _lexerAccept
 		case 4: // Discard
 			l.state = 0
+			l.consumed = false
 			return _lexerDiscard
 		case 5: // Accum
 			l.state = 0
+			l.consumed = false
 			return _lexerTryAgain
 		}
 	}
@@ -131,6 +145,7 @@ func (l *_LexerStateMachine) PushRune(r rune) int {
 func (l *_LexerStateMachine) Reset() {
 	l.mode = nil
 	l.state = 0
+	l.consumed = false
 }
 
 func (l *_LexerStateMachine) Token() int {
